@@ -248,31 +248,38 @@ def goPad (minus zero : Bool) (wid : Option Nat) (s : Str) : Str :=
     if minus then s ++ spaces n
     else if zero then zeros n ++ s else spaces n ++ s
 
+/-- the sign fmtInteger writes: '-' for a negative operand, else '+' with the plus flag, else ' ' with the space flag -/
+def signStr (neg plus space : Bool) : Str :=
+  if neg then ['-'] else if plus then ['+'] else if space then [' '] else []
+
+/-- fmtInteger's `prec`: "two ways to ask for extra leading zero digits: %.3d or %03d"; with `0` the width is the
+    precision, minus one when a sign will be written -/
+def goPrec (g : GoSpec) (neg : Bool) : Nat :=
+  match g.prec with
+  | some p => p
+  | none =>
+    match g.wid with
+    | some w => if g.zero && !g.minus then (if neg || g.plus || g.space then w - 1 else w) else 0
+    | none => 0
+
+/-- fmtInteger after the digits `ds0` of the magnitude have been produced: zero fill to `prec`, the `#` prefixes
+    (`0` for octal unless the first digit is a zero, `0x`/`0X`), the sign, then `pad` with the zero flag cleared -/
+def goAbs (g : GoSpec) (base : Nat) (upper : Bool) (neg : Bool) (ds0 : Str) : Str :=
+  let ds := zeros (goPrec g neg - ds0.length) ++ ds0
+  let ds :=
+    if g.sharp then
+      if base = 8 then (if ds.head? = some '0' then ds else '0' :: ds)
+      else if base = 16 then '0' :: (if upper then 'X' else 'x') :: ds
+      else ds
+    else ds
+  goPad g.minus false g.wid (signStr neg g.plus g.space ++ ds)
+
 /-- `(*fmt).fmtInteger` for a signed 64-bit operand; `base`, `upper` and the `0x` letter come from the verb -/
 def goInteger (g : GoSpec) (base : Nat) (upper : Bool) (i : Int) : Str :=
-  let negative := decide (i < 0)
-  let u := i.natAbs
-  if g.prec = some 0 ∧ u = 0 then
+  if g.prec = some 0 ∧ i.natAbs = 0 then
     -- "Precision of 0 and value of 0 means print nothing but padding"
     goPad g.minus false g.wid []
-  else
-    let prec : Nat :=
-      match g.prec with
-      | some p => p
-      | none =>
-        match g.wid with
-        | some w => if g.zero && !g.minus then (if negative || g.plus || g.space then w - 1 else w) else 0
-        | none => 0
-    let ds := natStr base upper u
-    let ds := zeros (prec - ds.length) ++ ds
-    let ds :=
-      if g.sharp then
-        if base = 8 then (if ds.head? = some '0' then ds else '0' :: ds)
-        else if base = 16 then '0' :: (if upper then 'X' else 'x') :: ds
-        else ds
-      else ds
-    let ds := if negative then '-' :: ds else if g.plus then '+' :: ds else if g.space then ' ' :: ds else ds
-    goPad g.minus false g.wid ds
+  else goAbs g base upper (decide (i < 0)) (natStr base upper i.natAbs)
 
 /-- `fmt.Fprintf(b, goFormat(f), int64(iv))` for the verbs pcore uses -/
 def goFmtInt (spec : Option GoSpec) (i : Int) : Res :=
@@ -441,24 +448,22 @@ def isFloatLetter (c : Char) : Bool := c = 'e' || c = 'E' || c = 'f' || c = 'g' 
 
 /-- `integerValue.ToString` for the letters that do not go to the float path -/
 def fmtIntCore (f : Fmt) (i : Int) : Res :=
-  let c := f.letter
-  if isIntLetter c then goFmtInt (goParse (goFormat f)) i
-  else if isPbB c then .text (intPbB f i)
-  else if c = 'c' then .text (applyStringFlags f (runeStr i) f.alt)
-  else if c = 's' then .text (applyStringFlags f (decimal i) f.alt)
+  if isIntLetter f.letter then goFmtInt (goParse (goFormat f)) i
+  else if isPbB f.letter then .text (intPbB f i)
+  else if f.letter = 'c' then .text (applyStringFlags f (runeStr i) f.alt)
+  else if f.letter = 's' then .text (applyStringFlags f (decimal i) f.alt)
   else .reported .unsupported
 
 /-- `floatValue.ToString` -/
 def fmtFloat (io : FloatIO) (f : Fmt) (bits : Nat) : Res :=
-  let c := f.letter
-  if isRadixLetter c then fmtIntCore f (io.toInt bits)
-  else if c = 'p' then .text (applyStringFlags f (floatGFormat io defaultFormatP bits) false)
-  else if c = 'e' || c = 'E' || c = 'f' then
+  if isRadixLetter f.letter then fmtIntCore f (io.toInt bits)
+  else if f.letter = 'p' then .text (applyStringFlags f (floatGFormat io defaultFormatP bits) false)
+  else if f.letter = 'e' || f.letter = 'E' || f.letter = 'f' then
     match goParse (goFormat f) with
     | none => .fault .goFmtNoVerb
     | some _ => .text (io.sprintf (goFormat f) bits)
-  else if c = 'g' || c = 'G' then .text (floatGFormat io f bits)
-  else if c = 's' then .text (applyStringFlags f (floatGFormat io defaultFormatS bits) f.alt)
+  else if f.letter = 'g' || f.letter = 'G' then .text (floatGFormat io f bits)
+  else if f.letter = 's' then .text (applyStringFlags f (floatGFormat io defaultFormatS bits) f.alt)
   else .reported .unsupported
 
 /-- `integerValue.ToString` -/
@@ -471,32 +476,29 @@ def boolStr (b alt : Bool) (yes no : Str) : Str :=
 
 /-- `booleanValue.ToString` -/
 def fmtBool (io : FloatIO) (f : Fmt) (b : Bool) : Res :=
-  let c := f.letter
-  if c = 't' then .text (applyStringFlags f (boolStr b f.alt "true".toList "false".toList) false)
-  else if c = 'T' then .text (applyStringFlags f (boolStr b f.alt "True".toList "False".toList) false)
-  else if c = 'y' then .text (applyStringFlags f (boolStr b f.alt "yes".toList "no".toList) false)
-  else if c = 'Y' then .text (applyStringFlags f (boolStr b f.alt "Yes".toList "No".toList) false)
-  else if isRadixLetter c then fmtIntCore f (if b then 1 else 0)
-  else if isFloatLetter c then fmtFloat io f (io.ofInt (if b then 1 else 0))
-  else if c = 's' || c = 'p' then .text (applyStringFlags f (boolStr b false "true".toList "false".toList) false)
+  if f.letter = 't' then .text (applyStringFlags f (boolStr b f.alt "true".toList "false".toList) false)
+  else if f.letter = 'T' then .text (applyStringFlags f (boolStr b f.alt "True".toList "False".toList) false)
+  else if f.letter = 'y' then .text (applyStringFlags f (boolStr b f.alt "yes".toList "no".toList) false)
+  else if f.letter = 'Y' then .text (applyStringFlags f (boolStr b f.alt "Yes".toList "No".toList) false)
+  else if isRadixLetter f.letter then fmtIntCore f (if b then 1 else 0)
+  else if isFloatLetter f.letter then fmtFloat io f (io.ofInt (if b then 1 else 0))
+  else if f.letter = 's' || f.letter = 'p' then .text (applyStringFlags f (boolStr b false "true".toList "false".toList) false)
   else .reported .unsupported
 
 /-- `stringValue.ToString` -/
 def fmtStr (f : Fmt) (s : Str) : Res :=
-  let c := f.letter
-  if c = 's' then .text (applyStringFlags f s false)
-  else if c = 'p' then .text (applyStringFlags f s true)
-  else if c = 'c' then .text (applyStringFlags f (capitalizeSegment s) f.alt)
-  else if c = 'C' then .text (applyStringFlags f (capitalizeSegments s) f.alt)
-  else if c = 'u' then .text (applyStringFlags f (s.map goUpper) f.alt)
-  else if c = 'd' then .text (applyStringFlags f (s.map goLower) f.alt)
-  else if c = 't' then .text (applyStringFlags f (trimSpace s) f.alt)
+  if f.letter = 's' then .text (applyStringFlags f s false)
+  else if f.letter = 'p' then .text (applyStringFlags f s true)
+  else if f.letter = 'c' then .text (applyStringFlags f (capitalizeSegment s) f.alt)
+  else if f.letter = 'C' then .text (applyStringFlags f (capitalizeSegments s) f.alt)
+  else if f.letter = 'u' then .text (applyStringFlags f (s.map goUpper) f.alt)
+  else if f.letter = 'd' then .text (applyStringFlags f (s.map goLower) f.alt)
+  else if f.letter = 't' then .text (applyStringFlags f (trimSpace s) f.alt)
   else .reported .unsupported
 
 def fmtDefault (f : Fmt) : Res :=
-  let c := f.letter
-  if c = 'd' || c = 's' || c = 'p' then .text (applyStringFlags f "default".toList false)
-  else if c = 'D' then .text (applyStringFlags f "Default".toList false)
+  if f.letter = 'd' || f.letter = 's' || f.letter = 'p' then .text (applyStringFlags f "default".toList false)
+  else if f.letter = 'D' then .text (applyStringFlags f "Default".toList false)
   else .reported .unsupported
 
 def fmtUndef (f : Fmt) : Res := .text (applyStringFlags f "undef".toList false)
@@ -521,15 +523,14 @@ def base64 (url : Bool) : List Nat → Str
 
 /-- `Binary.ToString`; `utf8` is the decoding of the bytes when they are valid UTF-8 -/
 def fmtBinary (f : Fmt) (bs : List Nat) (utf8 : Option Str) : Res :=
-  let c := f.letter
   let k (s : Str) : Res := .text (applyStringFlags f s f.alt)
-  if c = 's' then (match utf8 with | some s => k s | none => .reported .failure)
-  else if c = 'p' then k ("Binary('".toList ++ base64 false bs ++ "')".toList)
-  else if c = 'b' then k (base64 false bs ++ ['\n'])
-  else if c = 'B' then k (base64 false bs)
-  else if c = 'u' then k (base64 true bs)
-  else if c = 't' then k "Binary".toList
-  else if c = 'T' then k "BINARY".toList
+  if f.letter = 's' then (match utf8 with | some s => k s | none => .reported .failure)
+  else if f.letter = 'p' then k ("Binary('".toList ++ base64 false bs ++ "')".toList)
+  else if f.letter = 'b' then k (base64 false bs ++ ['\n'])
+  else if f.letter = 'B' then k (base64 false bs)
+  else if f.letter = 'u' then k (base64 true bs)
+  else if f.letter = 't' then k "Binary".toList
+  else if f.letter = 'T' then k "BINARY".toList
   else .reported .unsupported
 
 /-! ### values, format maps -/
@@ -546,6 +547,17 @@ end
 inductive Kind where
   | int | float | str | bool | undef | dflt | bin | regexp | arr | hash
   deriving DecidableEq, Repr
+
+/-- one row of the regenerated format-letter table (extract/formatletters.go): the `switch f.FormatChar()` of a kind -/
+structure LetterRow where
+  kind : Kind
+  noSwitch : Bool            -- the ToString method has no switch on the letter (Undef, Regexp)
+  handled : List Char        -- letters of the arms that format
+  toFloat : List Char        -- … of which: handed over to floatValue.ToString
+  toInt : List Char          -- … of which: handed over to integerValue.ToString
+  documented : List Char     -- the literal passed to UnsupportedFormat
+  unknown : List String      -- anything the extractor did not recognise
+  deriving Repr
 
 def Val.kind : Val → Kind
   | .undef => .undef | .dflt => .dflt | .bool _ => .bool | .int _ => .int | .float _ => .float
